@@ -88,4 +88,41 @@ theorem banned_absent (h : compile banned f = .ok c) : ∀ d ∈ flatF f, d.kind
   obtain ⟨e, he, rfl⟩ := hd
   exact run_all (fun e => e.d.kind ∉ banned) (fun e c c' hs => (step_ok hs).1) _ _ _ hr e he
 
+/-! ## C. LOCALITY (C20): adding an independent declaration adds exactly its entry -/
+
+theorem add_type_local {nt : Bytes} (h : compile banned f = .ok c) (d : BDir) (hk : d.kind = .Type)
+    (hn : d.param "Name" ≠ []) (hfresh : ∀ t ∈ c.types, t.name ≠ d.param "Name")
+    (hnot : newNotation (d.param "SchemaNotation") = .ok nt)
+    (hbody : (nt = nJsight ∨ nt = nRegex) → d.body.isSome) (hban : d.kind ∉ banned) (hf : f ≠ []) :
+    compile banned (f ++ [.node d []]) =
+      .ok { c with types := c.types ++ [{ name := d.param "Name", annot := d.annot, nota := nt }] } := by
+  refine compile_snoc h hf _ (by simp [BTree.dir, hk]) (by simp [BTree.dir, hn]) ?_
+    (add_type_run hk hn hfresh hnot hbody hban) rfl rfl
+  intro last
+  exact ⟨last, by simp [pathsTree, pathsForest, hk]⟩
+
+/-- `SERVER @fresh` without children -/
+theorem add_server_local (h : compile banned f = .ok c) (d : BDir) (hk : d.kind = .Server)
+    (hn : d.param "Name" ≠ []) (hfresh : ∀ s ∈ c.servers, s.name ≠ d.param "Name") (hban : d.kind ∉ banned)
+    (hf : f ≠ []) :
+    compile banned (f ++ [.node d []]) =
+      .ok { c with servers := c.servers ++ [{ name := d.param "Name", annot := d.annot }] } := by
+  refine compile_snoc h hf _ (by simp [BTree.dir, hk]) (by simp [BTree.dir, hk]) ?_
+    (add_server_run hk hn hfresh hban) rfl rfl
+  intro last
+  exact ⟨last, by simp [pathsTree, pathsForest, hk]⟩
+
+/-- `SERVER @fresh` with a `BaseUrl` child -/
+theorem add_server_baseurl_local (h : compile banned f = .ok c) (d b : BDir) (hk : d.kind = .Server)
+    (hn : d.param "Name" ≠ []) (hfresh : ∀ s ∈ c.servers, s.name ≠ d.param "Name") (hban : d.kind ∉ banned)
+    (hkb : b.kind = .BaseURL) (hp : b.param "Path" ≠ []) (hab : b.annot = []) (hbanb : b.kind ∉ banned)
+    (hf : f ≠ []) :
+    compile banned (f ++ [.node d [.node b []]]) =
+      .ok { c with servers := c.servers ++
+              [{ name := d.param "Name", annot := d.annot, baseUrl := b.param "Path" }] } := by
+  refine compile_snoc h hf _ (by simp [BTree.dir, hk]) (by simp [BTree.dir, hk]) ?_
+    (add_server_baseurl_run hk hn hfresh hban hkb hp hab hbanb) rfl rfl
+  intro last
+  exact ⟨last, by simp [pathsTree, pathsForest, hk, hkb]⟩
+
 end JSight.C04B
